@@ -1,15 +1,22 @@
 import Driver.MichIO
-import PytezosModel.Michelson.Entrypoints
+import PytezosModel.Michelson.EntrypointsPy
 open Driver Impl.Entrypoints
 
 /-! line protocol (tokens separated by single spaces)
-  type   ::= `o <ann> <type> <type>` | `l <ann> <tyid>`          ann ::= `-` (none) | `+<hex utf8>` (`+` = empty string)
+  rtype  ::= `o <annots> <rtype> <rtype>` | `l <annots> <prim> <tyid>` | `p <annots> <tyid> <rtype> <rtype>`
+           | `O <annots> <tyid> <rtype>` | `S <annots> <tyid> <rtype>`        (the type expression as written; or / type without
+                                                                              arguments / pair / option / list)
+  annots ::= `<k> <ann>*k`, each `+<hex utf8 of the annotation with its prefix character>`;  prim ::= `+<hex utf8>`
+  type   ::= `o <ann> <type> <type>` | `l <ann> <tyid>`  (output only)       ann ::= `-` (none) | `+<hex utf8>` (`+` = empty string)
   value  ::= `L <value>` | `R <value>` | `V <tyid> <payload>`
-  `root <type>`                    → `+<hex>` | `err:<kind>`
-  `list <type>`                    → `<ann> <type> ; <ann> <type> ; …` (dict order) | `err:<kind>`
-  `spec <type>`                    → the same for `Spec.entrypoints` | `ill-formed`
-  `to <type> <value>`              → `<ann> <value>` | `err:<kind>`
-  `from <type> <ann> <value>`      → `<value>` | `err:<kind>` -/
+  pyobj  ::= `D <ann> <pyobj>` (`{name: obj}`) | `S <ann>` (a string) | `U` (`Unit`) | `V <tyid> <payload>` (object of a leaf value)
+  `root <rtype>`                   → `+<hex>` | `err:<kind>`
+  `list <rtype>`                   → `<ann> <type> ; <ann> <type> ; …` (dict order) | `err:<kind>`
+  `spec <rtype>`                   → the same for `Spec.entrypoints (view r)` | `ill-formed` | `rejected` (not `RawOk`)
+  `to <rtype> <value>`             → `<ann> <value>` | `err:<kind>`
+  `from <rtype> <ann> <value>`     → `<value>` | `err:<kind>`
+  `pyfrom <rtype> <pyobj>`         → `<value>` | `err:<kind>`        (`ParameterSection.from_python_object`)
+  `pyto <rtype> <value>`           → `<pyobj>` | `err:<kind>`        (`ParameterSection.to_python_object`) -/
 
 def readAnn (t : String) : Option (Option String) :=
   if t = "-" then some none
@@ -22,17 +29,86 @@ def showAnn : Option String → String
   | none => "-"
   | some s => if s = "" then "+" else "+" ++ stringToHex s
 
-partial def readTy : List String → Option (PTy × List String)
-  | "o" :: a :: rest => do
-    let a ← readAnn a
-    let (l, r1) ← readTy rest
-    let (r, r2) ← readTy r1
-    pure (.or a l r, r2)
-  | "l" :: a :: t :: rest => do
-    let a ← readAnn a
-    let t ← t.toNat?
-    pure (.leaf a t, rest)
+def readStr (t : String) : Option String :=
+  if t.startsWith "+" then
+    let h := (t.drop 1).toString
+    if h = "" then some "" else hexToString h
+  else none
+
+def readAnnots : List String → Option (List String × List String)
+  | k :: rest => do
+    let k ← k.toNat?
+    if rest.length < k then none else do
+    let as ← (rest.take k).mapM readStr
+    pure (as, rest.drop k)
   | _ => none
+
+partial def readRTy : List String → Option (RTy × List String)
+  | "o" :: rest => do
+    let (as, r0) ← readAnnots rest
+    let (l, r1) ← readRTy r0
+    let (r, r2) ← readRTy r1
+    pure (.or as l r, r2)
+  | "l" :: rest => do
+    let (as, r0) ← readAnnots rest
+    match r0 with
+    | p :: t :: r1 => do
+      let p ← readStr p
+      let t ← t.toNat?
+      pure (.prim as p t, r1)
+    | _ => none
+  | "p" :: rest => do
+    let (as, r0) ← readAnnots rest
+    match r0 with
+    | t :: r1 => do
+      let t ← t.toNat?
+      let (l, r2) ← readRTy r1
+      let (r, r3) ← readRTy r2
+      pure (.pair as t l r, r3)
+    | _ => none
+  | "O" :: rest => do
+    let (as, r0) ← readAnnots rest
+    match r0 with
+    | t :: r1 => do
+      let t ← t.toNat?
+      let (a, r2) ← readRTy r1
+      pure (.option as t a, r2)
+    | _ => none
+  | "S" :: rest => do
+    let (as, r0) ← readAnnots rest
+    match r0 with
+    | t :: r1 => do
+      let t ← t.toNat?
+      let (a, r2) ← readRTy r1
+      pure (.list as t a, r2)
+    | _ => none
+  | _ => none
+
+/-- the matched type and what the entrypoint functions read of it -/
+def readTy (ts : List String) : Option (Except Err (QTy × PTy) × List String) := do
+  let (r, rest) ← readRTy ts
+  pure ((matchTy r).map fun q => (q, q.erase), rest)
+
+partial def readPy : List String → Option (PyObj × List String)
+  | "D" :: k :: rest => do
+    let k ← readStr k
+    let (v, r) ← readPy rest
+    pure (.dict1 k v, r)
+  | "S" :: k :: rest => do
+    let k ← readStr k
+    pure (.str k, rest)
+  | "U" :: rest => pure (.unit, rest)
+  | "V" :: t :: x :: rest => do
+    let t ← t.toNat?
+    let x ← x.toNat?
+    pure (.leaf t x, rest)
+  | _ => none
+
+def showPy : PyObj → List String
+  | .leaf t x => ["V", toString t, toString x]
+  | .unit => ["U"]
+  | .str s => ["S", "+" ++ (if s = "" then "" else stringToHex s)]
+  | .dict1 k v => "D" :: ("+" ++ (if k = "" then "" else stringToHex k)) :: showPy v
 
 partial def readVal : List String → Option (PVal × List String)
   | "L" :: rest => do
@@ -63,6 +139,9 @@ def showErr : Err → String
   | .badValue => "err:bad-value"
   | .keyError => "err:key-error"
   | .unrecognised => "unrecognised-source"
+  | .typeError => "err:type-error"
+  | .pyAssert => "err:py-assert"
+  | .rejectedType => "err:rejected-type"
 
 def showDict (d : List (String × PTy)) : String :=
   joinWith " ; " (d.map fun e => joinWith " " (showAnn (some e.1) :: showTy e.2))
@@ -71,38 +150,63 @@ def handleWith (c : Cfg) (line : String) : String :=
   match words line with
   | "root" :: ts =>
     match readTy ts with
-    | some (p, []) => match rootName c p with
+    | some (.ok (_, p), []) => match rootName c p with
       | .ok n => showAnn (some n)
       | .error e => showErr e
+    | some (.error e, []) => showErr e
     | _ => "bad-op"
   | "list" :: ts =>
     match readTy ts with
-    | some (p, []) => match listEntrypoints c p with
+    | some (.ok (_, p), []) => match listEntrypoints c p with
       | .ok d => showDict d
       | .error e => showErr e
+    | some (.error e, []) => showErr e
     | _ => "bad-op"
   | "spec" :: ts =>
-    match readTy ts with
-    | some (p, []) => match Spec.Entrypoints.entrypoints c.dflt c.root p with
-      | some d => showDict d
-      | none => "ill-formed"
+    match readRTy ts with
+    | some (r, []) =>
+      if Spec.Entrypoints.RawOk r then
+        match Spec.Entrypoints.entrypoints c.dflt c.root (Spec.Entrypoints.view r) with
+        | some d => showDict d
+        | none => "ill-formed"
+      else "rejected"
     | _ => "bad-op"
   | "to" :: ts =>
     match readTy ts with
-    | some (p, r) => match readVal r with
+    | some (.ok (_, p), r) => match readVal r with
       | some (v, []) => match toParameters c p v with
         | .ok (e, a) => joinWith " " (showAnn (some e) :: showVal a)
         | .error e => showErr e
       | _ => "bad-op"
+    | some (.error e, _) => showErr e
     | none => "bad-op"
   | "from" :: ts =>
     match readTy ts with
-    | some (p, a :: r) => match readAnn a, readVal r with
+    | some (.ok (_, p), a :: r) => match readAnn a, readVal r with
       | some (some e), some (v, []) => match fromParameters c p e v with
         | .ok v => joinWith " " (showVal v)
         | .error e => showErr e
       | _, _ => "bad-op"
+    | some (.error e, _) => showErr e
     | _ => "bad-op"
+  | "pyfrom" :: ts =>
+    match readTy ts with
+    | some (.ok (q, _), r) => match readPy r with
+      | some (o, []) => match fromPythonObject c q o with
+        | .ok v => joinWith " " (showVal v)
+        | .error e => showErr e
+      | _ => "bad-op"
+    | some (.error e, _) => showErr e
+    | none => "bad-op"
+  | "pyto" :: ts =>
+    match readTy ts with
+    | some (.ok (q, _), r) => match readVal r with
+      | some (v, []) => match toPythonObject c q v with
+        | .ok o => joinWith " " (showPy o)
+        | .error e => showErr e
+      | _ => "bad-op"
+    | some (.error e, _) => showErr e
+    | none => "bad-op"
   | _ => "bad-op"
 
 def handle (line : String) : String :=
